@@ -78,22 +78,52 @@ pub fn drop_nulls(v: &Value) -> Value {
 }
 
 /// a parameter object with one field removed / retyped (must be answered with InvalidParameter)
-fn bad_params(rng: &mut Rng, fs: &[(String, Ty)], good: &Value, defs: &HashMap<String, Ty>) -> Option<(Value, String)> {
-    let candidates: Vec<&(String, Ty)> = fs.iter().filter(|(_, t)| !matches!(t, Ty::Opt(_) | Ty::Object)).collect();
-    if candidates.is_empty() {
-        return None;
-    }
-    let (n, t) = rng.pick(&candidates);
-    let mut m = good.as_object().cloned().unwrap_or_default();
+/// A value that is NOT of type `t`: either retyped at this level or, below structs / arrays /
+/// maps / present optionals, at a random depth (e.g. a string set one of whose members is `7`
+/// instead of `{}`).  None when every JSON value fits (`object`).
+fn ill_typed(rng: &mut Rng, t: &Ty, good: &Value, defs: &HashMap<String, Ty>, depth: usize) -> Option<(Value, String)> {
     let resolved = match t {
         Ty::Name(x) => defs.get(x).cloned().unwrap_or(Ty::Str),
         o => o.clone(),
     };
-    if rng.chance(1, 3) {
-        m.remove(n);
-        return Some((Value::Object(m), format!("{} removed", n)));
+    if depth > 0 && rng.chance(2, 3) {
+        match &resolved {
+            Ty::Struct(fs) if !fs.is_empty() => {
+                let (n, ft) = rng.pick(fs).clone();
+                let child = match good.get(&n) {
+                    Some(c) if !c.is_null() => c.clone(),
+                    _ => gen_value(rng, &ft, defs, 1),
+                };
+                if let Some((v, w)) = ill_typed(rng, &ft, &child, defs, depth - 1) {
+                    let mut o = good.as_object().cloned().unwrap_or_default();
+                    o.insert(n.clone(), v);
+                    return Some((Value::Object(o), format!("{}.{}", n, w)));
+                }
+            }
+            Ty::Array(et) => {
+                let elem = good.get(0).cloned().unwrap_or_else(|| gen_value(rng, et, defs, 1));
+                if let Some((v, w)) = ill_typed(rng, et, &elem, defs, depth - 1) {
+                    let mut a = good.as_array().cloned().unwrap_or_default();
+                    a.push(v);
+                    return Some((Value::Array(a), format!("[last].{}", w)));
+                }
+            }
+            Ty::Dict(et) => {
+                let elem = gen_value(rng, et, defs, 1);
+                if let Some((v, w)) = ill_typed(rng, et, &elem, defs, depth - 1) {
+                    let mut o = good.as_object().cloned().unwrap_or_default();
+                    o.insert("illtyped".into(), v);
+                    return Some((Value::Object(o), format!("[illtyped].{}", w)));
+                }
+            }
+            Ty::Opt(inner) => {
+                let child = if good.is_null() { gen_value(rng, inner, defs, 1) } else { good.clone() };
+                return ill_typed(rng, inner, &child, defs, depth);
+            }
+            _ => {}
+        }
     }
-    let wrong = match resolved {
+    let wrong = match &resolved {
         Ty::Bool => json!("true"),
         Ty::Int => json!("1"),
         Ty::Float => json!("1.5"),
@@ -102,10 +132,36 @@ fn bad_params(rng: &mut Rng, fs: &[(String, Ty)], good: &Value, defs: &HashMap<S
         Ty::Struct(_) => json!(7),
         Ty::Array(_) => json!({"not": "an array"}),
         Ty::Dict(_) => json!([1]),
-        _ => json!(null),
+        Ty::Opt(inner) => return ill_typed(rng, inner, good, defs, 0),
+        _ => return None,
     };
-    m.insert(n.to_string(), wrong.clone());
-    Some((Value::Object(m), format!("{} retyped to {}", n, wrong)))
+    Some((wrong.clone(), format!("retyped to {}", wrong)))
+}
+
+fn bad_params(rng: &mut Rng, fs: &[(String, Ty)], good: &Value, defs: &HashMap<String, Ty>) -> Option<(Value, String)> {
+    let required: Vec<&(String, Ty)> = fs.iter().filter(|(_, t)| !matches!(t, Ty::Opt(_) | Ty::Object)).collect();
+    let mut m = good.as_object().cloned().unwrap_or_default();
+    if !required.is_empty() && rng.chance(1, 4) {
+        let (n, _) = rng.pick(&required);
+        m.remove(n);
+        return Some((Value::Object(m), format!("{} removed", n)));
+    }
+    // a few attempts: some fields (`object`) admit no ill-typed value
+    for _ in 0..6 {
+        if fs.is_empty() {
+            return None;
+        }
+        let (n, t) = rng.pick(fs).clone();
+        let child = match good.get(&n) {
+            Some(c) => c.clone(),
+            None => Value::Null,
+        };
+        if let Some((v, w)) = ill_typed(rng, &t, &child, defs, 3) {
+            m.insert(n.clone(), v);
+            return Some((Value::Object(m), format!("{} {}", n, w)));
+        }
+    }
+    None
 }
 
 // ------------------------------------------------------------------ emitted-signature scanning
